@@ -1,3 +1,3 @@
 From Coq Require Import ExtrOcamlBasic.
 From OBB Require Import Model.Mframe.
-Extraction "model.ml" w_c11_fw_sched w_c11_trx_frame w_c11_trx_layout w_c11_find_bad w_c11_row w_c11_cfg_ts w_c11_rx w_c11_tx w_c11_probe w_c11_fw_hist.
+Extraction "model.ml" w_c11_fw_sched w_c11_trx_frame w_c11_trx_layout w_c11_find_bad w_c11_row w_c11_cfg_ts w_c11_rx w_c11_tx w_c11_probe w_c11_fw_hist w_c11_resolve.
